@@ -156,6 +156,7 @@ func oracleC03(p *plan.Plan, his []plan.Rec, res *plan.Result) {
 	type kstate struct {
 		vals     map[string]bool
 		ack      string
+		slowDelete  bool // the last acknowledged Delete was blocked for longer than the member-to-member read time-out
 		baseBackups int  // backup copies before the first membership event
 		rewritten   bool // written again during the hand-over phase
 	}
@@ -213,6 +214,11 @@ func oracleC03(p *plan.Plan, his []plan.Rec, res *plan.Result) {
 				}
 				st.ack = v
 				st.vals[v] = true
+				rt := int64(p.Cluster.ClientReadTimeoutMs)
+				if rt == 0 {
+					rt = 3000
+				}
+				st.slowDelete = r.Op.K == "del" && r.TRet-r.TInv >= rt*1e6
 			} else {
 				st.vals[v], st.vals["?"+v] = true, true
 				res.Counters["oracle.indeterminate_writes"]++
@@ -241,7 +247,7 @@ func oracleC03(p *plan.Plan, his []plan.Rec, res *plan.Result) {
 					if st.ack == "" && len(keysOf(st.vals)) == 1 {
 						class = "deleted-key-resurrected"
 					}
-					viol(res, class, r.Op.Key, "%s but the key may only hold %v; writes: %s", descRecT(r), keysOf(st.vals), writesOf(his, r.Op.Key))
+					viol(res, class, r.Op.Key+slowTag(st.slowDelete), "%s but the key may only hold %v; writes: %s", descRecT(r), keysOf(st.vals), writesOf(his, r.Op.Key))
 				}
 			case r.Err == plan.ENotFound:
 				if !st.vals[""] {
@@ -292,7 +298,7 @@ func oracleC03(p *plan.Plan, his []plan.Rec, res *plan.Result) {
 					} else if st.ack == "" && len(keysOf(st.vals)) == 1 {
 						class = "deleted-key-resurrected"
 					}
-					viol(res, class, r.Op.Key, "Get(%s) through m%d returned %q, allowed %v; writes: %s", r.Op.Key, c.Member, v, keysOf(st.vals), writesOf(his, r.Op.Key))
+					viol(res, class, r.Op.Key+slowTag(st.slowDelete), "Get(%s) through m%d returned %q, allowed %v; writes: %s", r.Op.Key, c.Member, v, keysOf(st.vals), writesOf(his, r.Op.Key))
 				}
 			}
 			if len(seen) > 1 {
@@ -351,4 +357,11 @@ func oracleC03(p *plan.Plan, his []plan.Rec, res *plan.Result) {
 			}
 		}
 	}
+}
+
+func slowTag(slow bool) string {
+	if slow {
+		return " delete-blocked-by-move"
+	}
+	return ""
 }
